@@ -178,7 +178,7 @@ _P = [('mode', 'int'), ('ka', 'int'), ('kb', 'int'), ('sk', 'bool'), ('imp', 'bo
 _C = ', '.join(n for n, _ in _P)
 _B = '0 <= fault <= 1 and (fault == 0 or (mode != 0 and mode != 3 and not rep2)) and (rep2 or strict) and 0 <= mode < 5 and 0 <= ka < %d and 0 <= kb < %d and 0 <= su <= 2 and 0 <= td <= 2 and 0 <= verbose <= 2' % (len(KA), len(KB))
 _Q = _B + ' and (fault == 0 or (mode <= 2 and ka <= 3 and kb == 0 and not nl and not sk and not imp and su == 0 and td == 0)) and (verbose == 1 or fault == 1) and (not nl or (not rep2 and not sk and not imp and su == 0 and td == 0)) and kb <= 1 and (imp + (su != 0) + (td != 0) <= 1) and (not rep2 or (not imp and su == 0 and td == 0))'
-_T = _B
+_T = _B + ' and (imp + (su != 0) + (td != 0) <= 1) and (not nl or verbose == 1) and (fault == 0 or verbose != 1)'
 
 
 def _v(**kw):
